@@ -12,6 +12,9 @@ CLAIMED = {
  "C02": ("reference-model monitor over hooked coin-tree snapshots before/after every batch of generated histories",
          "Every batch of thousands of generated histories (all transaction kinds, dependent members in every order, one hostile mutation) is checked against a map-based UTXO model: accepted => necessary validity conditions held and coin set = prior - inputs + outputs exactly; rejected => every observable component unchanged.",
          "Covers generated batches only; validity model checks necessary conditions (sufficiency is observed, not claimed); covenants outside the reference interpreter's domain give no claim.", "6/C02"),
+ "C05": ("exact-arithmetic monitor of fee_pool/tips (hooked snapshots) per batch and around the proposer phase, plus threshold probes at min-1 / min / min+k found by fixpoint",
+         "Random histories at multipliers {0,1,2,100,10^6,2^40,2^64,2^100} and thousands of threshold probes (0-8 inputs, 1-60 outputs, extra covenants of every weight class incl. heavy loops and undecodable bytes): accepted => fee >= floor(refweight*mult/65536); below => rejected; pool += sum(min), tips += sum(fee-min) exactly; reward coin = pool>>16 + tips to the destination at the current height with pool/tips debited exactly; no action => nothing moves.",
+         "Reference weight uses the reference covenant weight (cross-checked against the implementation by C12); multipliers above 2^100 and saturating pools are exercised by C09 only.", "6/C05"),
  "C09": ("panic/abort monitor (catch_unwind + panic hook recording message, location and originating crate; one process per shard with a journal) around every API call on hostile workloads",
          "Random histories on all network classes with one hostile mutation per batch (16 field mutators + byte-level mutation that still deserializes), degenerate requests (zero-valued pool requests, empty/garbage/partial MelPoW proofs at all difficulties, undecodable stake documents, faucet-minted liquidity tokens, maximal values), extreme proposer deltas; apply_tx_batch, seal, next_unsealed, apply_block, confirm, from_block are all called under the monitor; deterministic probes replay the crash-class inputs of DESIGN section 9.",
          "Supply kept below 2^127 by construction (the property's precondition); overflow traps that exist only because dependency generics are instantiated with overflow checks are excluded (checked against a production-like build); hangs are bounded by the driver's watchdog and reported inconclusive.", "6/C09"),
@@ -27,9 +30,15 @@ CLAIMED = {
  "C14": ("exhaustive subset enumeration monitor on SealedState::confirm over fabricated stake distributions",
          "For every weight tuple from {1,2,3,5,8}^n (n<=4 exhaustive, n=5,6 sampled) every signer subset is confirmed against real signatures and compared with the 2/3 rule in exact arithmetic; corrupted, swapped, foreign and truncated signatures must never confirm; supersets never un-confirm.",
          "Stake sets are fabricated through from_block; ed25519 is trusted.", "6/C14"),
+ "C16": ("structural invariant monitor at quiescent points: after every seal the pools tree and the coin tree are walked from the hooked snapshot",
+         "Pool-heavy histories of 8-40 blocks (several deposits per pool per block with equal/perfect-square/repeated amounts, withdraw-everything, one-sided floods, subsidies, pegging): built-in pools exist with both reserves non-zero; no pool entry under a name no transaction used; for every pool, liquidity tokens summed over all unspent coins <= recorded liqs.",
+         "Histories in which a test-network faucet minted a liquidity-token denomination are excluded from the backing rule (a faucet can mint any denomination by design) and exercised under C09.", "6/C16"),
  "C17": ("enumerating monitor of header().fee_multiplier across seal(Some(delta)) against an exact big-integer step",
          "All 256 deltas x multipliers 0..300 and around every power of two up to 2^70, before and after TIP-901, plus long runs of extreme deltas; exact expected value, no wrap, no panic, and unchanged without an action.",
          "Multipliers beyond 2^70 are checked for totality and direction only.", "6/C17"),
+ "C20": ("structural invariant monitor: census of the coin tree versus its count entries after every accepted batch, seal and next_unsealed",
+         "Histories of all kinds on custom networks (TIP-906 from genesis) and testnet/mainnet histories fabricated just below the activation height and run across it; for every covenant hash the count entry must equal the number of unspent coins, with no orphan or zero entry; the activation census is checked at the boundary.",
+         "Entries are classified by serialized shape (coin vs u64 count).", "6/C20"),
 }
 
 def short(cmd):
